@@ -132,6 +132,16 @@ CHECKS = {
              "pre_expand/expand_all. The token handlers and the tokenizer are not modelled, so there is no totality theorem.",
         note=TRUST + "tree serialiser and string abstraction (empty / contains placeholder) trusted.",
         ref="DESIGN.md section 4 C01"),
+    "C03": dict(
+        technique="Coq proof (attribute maps written by to_attrs are read back exactly by the parse_attrs scanner model) + scanner correspondence + structure oracle",
+        text="Theorem c03_attribute_map_roundtrip: for every map of distinct URL-safe names and quote-free values, "
+             "parse_attrs(to_attrs m) = m in the scanner model of the attribute regex; the model is run against the real "
+             "parse_attrs on 2000+ generated attribute strings, well-formed and malformed. PARTIAL: that an r x c grid (both "
+             "separator styles, caption, attributes on table/rows/cells), every paired allowed HTML tag with attributes and "
+             "content, links, external links and template calls parse to exactly the written structure is decided by "
+             "execution against the generator's structure, not by a theorem about the table handlers.",
+        note=TRUST + "table/tag handlers, tokenizer and encoder exercised, not modelled; ASCII word characters.",
+        ref="DESIGN.md section 4 C03"),
 }
 
 NOT_YET = "check not built yet in this round (planned, see DESIGN.md section 8)"
